@@ -451,4 +451,485 @@ theorem isMatch_eq_kwSpec (k : Keyword) (l : List Char) : isMatch k l = kwSpec k
   funext s
   exact specHere_toToks k s
 
+/-! ## PART C — which captures the matcher returns (C07) -/
+
+/-- SPECIFICATION.  `LazyGaps anch segs s caps`: the segments occur from the head of `s` on with
+the gaps `caps`, and every gap is the shortest one (in the order of the wildcards) for which the
+rest of the pattern can still be matched in some way -/
+def LazyGaps (anch : Bool) : List (List Char) → List Char → Caps → Prop
+  | [], _, caps => caps = []
+  | [seg], s, caps => caps = [] ∧ ∃ t, stripSeg seg s = some t ∧ (anch = true → t = [])
+  | seg :: r :: rest, s, caps =>
+    ∃ u, stripSeg seg s = some u ∧
+      ∃ g t caps', u = g ++ t ∧ caps = g :: caps' ∧ '\n' ∉ g ∧ LazyGaps anch (r :: rest) t caps' ∧
+        ∀ g' t', u = g' ++ t' → g'.length < g.length → segsHere anch (r :: rest) t' = false
+
+/-- SPECIFICATION.  `Recon segs caps m`: the text `m` is the pattern with every literal segment
+replaced by an occurrence of it and the i-th `*` by the i-th capture -/
+def Recon : List (List Char) → Caps → List Char → Prop
+  | [], caps, m => caps = [] ∧ m = []
+  | [seg], caps, m => caps = [] ∧ SegMatch seg m
+  | seg :: r :: rest, caps, m =>
+    ∃ m0 g caps' m', caps = g :: caps' ∧ m = m0 ++ (g ++ m') ∧ SegMatch seg m0 ∧
+      Recon (r :: rest) caps' m'
+
+/-- the pattern with the i-th `*` replaced by the i-th capture -/
+def substitute : List (List Char) → Caps → List Char
+  | [], _ => []
+  | [seg], _ => seg
+  | seg :: r :: rest, g :: caps => seg ++ (g ++ substitute (r :: rest) caps)
+  | seg :: _ :: _, [] => seg
+
+/-- length of the text a match with these captures covers -/
+def matchedLen : List (List Char) → Caps → Nat
+  | [], _ => 0
+  | [seg], _ => seg.length
+  | seg :: r :: rest, g :: caps => seg.length + (g.length + matchedLen (r :: rest) caps)
+  | seg :: _ :: _, [] => seg.length
+
+/-- the part of `t` (the line from the match start on) that the match covers -/
+def matchedText (segs : List (List Char)) (caps : Caps) (t : List Char) : List Char :=
+  t.take (matchedLen segs caps)
+
+/-- token-level version of `LazyGaps` -/
+def LazyCaps : List Tok → List Char → Caps → Prop
+  | [], _, caps => caps = []
+  | .lit c :: ts, s, caps => ∃ d s', s = d :: s' ∧ foldEq c d = true ∧ LazyCaps ts s' caps
+  | .ws :: ts, s, caps => ∃ d s', s = d :: s' ∧ Text.isWhite d = true ∧ LazyCaps ts s' caps
+  | .wild :: ts, s, caps =>
+    ∃ g t rest, s = g ++ t ∧ caps = g :: rest ∧ '\n' ∉ g ∧ LazyCaps ts t rest ∧
+      ∀ g' t', s = g' ++ t' → g'.length < g.length → specHere ts t' = false
+  | .eol :: ts, s, caps => s = [] ∧ LazyCaps ts s caps
+
+/-- what the lazy group returns: the shortest newline-free gap after which the continuation
+succeeds -/
+theorem wildK_some_iff (k : List Char → Option Caps) (acc s : List Char) (caps : Caps) :
+    wildK k acc s = some caps ↔
+      ∃ g t rest, s = g ++ t ∧ '\n' ∉ g ∧ k t = some rest ∧ caps = (acc.reverse ++ g) :: rest ∧
+        ∀ g' t', s = g' ++ t' → g'.length < g.length → k t' = none := by
+  induction s generalizing acc with
+  | nil =>
+    simp only [wildK]
+    constructor
+    · intro h
+      cases hk : k [] with
+      | none => simp [hk] at h
+      | some rest =>
+        simp [hk] at h
+        refine ⟨[], [], rest, rfl, by simp, hk, by simp [h], ?_⟩
+        intro g' t' _ hlt; simp at hlt
+    · rintro ⟨g, t, rest, e, _, hk, hc, _⟩
+      have : g = [] ∧ t = [] := by simpa using e.symm
+      obtain ⟨e1, e2⟩ := this
+      subst e1 e2
+      simp [hk, hc]
+  | cons d s ih =>
+    simp only [wildK]
+    cases hk : k (d :: s) with
+    | some c0 =>
+      simp only [Option.some.injEq]
+      constructor
+      · intro h
+        refine ⟨[], d :: s, c0, rfl, by simp, hk, by simp [h], ?_⟩
+        intro g' t' _ hlt; simp at hlt
+      · rintro ⟨g, t, rest, e, _, hkt, hc, hmin⟩
+        cases g with
+        | nil =>
+          simp at e; subst e
+          rw [hk] at hkt; cases hkt
+          simp [hc]
+        | cons a g =>
+          have := hmin [] (d :: s) rfl (by simp)
+          rw [hk] at this; cases this
+    | none =>
+      by_cases hd : d = '\n'
+      · subst hd
+        simp only [beq_self_eq_true, if_true]
+        constructor
+        · intro h; cases h
+        · rintro ⟨g, t, rest, e, hn, hkt, _, _⟩
+          cases g with
+          | nil => simp at e; subst e; rw [hk] at hkt; cases hkt
+          | cons a g =>
+            simp at e
+            exact absurd (by rw [← e.1]; simp) hn
+      · have h1 : (d == '\n') = false := by simpa using hd
+        simp only [h1, Bool.false_eq_true, if_false]
+        rw [ih (d :: acc)]
+        constructor
+        · rintro ⟨g, t, rest, e, hn, hkt, hc, hmin⟩
+          refine ⟨d :: g, t, rest, by simp [e], ?_, hkt, by simp [hc], ?_⟩
+          · intro hm
+            simp only [List.mem_cons] at hm
+            rcases hm with hm | hm
+            · exact hd hm.symm
+            · exact hn hm
+          · intro g' t' e' hlt
+            cases g' with
+            | nil => simp at e'; subst e'; exact hk
+            | cons a g' =>
+              simp at e'
+              exact hmin g' t' e'.2 (by simpa using hlt)
+        · rintro ⟨g, t, rest, e, hn, hkt, hc, hmin⟩
+          cases g with
+          | nil => simp at e; subst e; rw [hk] at hkt; cases hkt
+          | cons a g =>
+            simp at e
+            obtain ⟨e1, e2⟩ := e
+            subst e1
+            refine ⟨g, t, rest, e2, fun h => hn (by simp [h]), hkt, by simp [hc], ?_⟩
+            intro g' t' e' hlt
+            exact hmin (d :: g') t' (by simp [e']) (by simpa using hlt)
+
+theorem matchHere_none_iff (ts : List Tok) (s : List Char) :
+    matchHere ts s = none ↔ specHere ts s = false := by
+  rw [← matchHere_isSome]
+  cases matchHere ts s <;> simp
+
+theorem matchHere_some_iff (ts : List Tok) (s : List Char) (caps : Caps) :
+    matchHere ts s = some caps ↔ LazyCaps ts s caps := by
+  induction ts generalizing s caps with
+  | nil => simp only [matchHere, LazyCaps, Option.some.injEq]; exact eq_comm
+  | cons t ts ih =>
+    cases t with
+    | lit c =>
+      cases s with
+      | nil => simp [matchHere, LazyCaps]
+      | cons d s' =>
+        simp only [matchHere, LazyCaps]
+        constructor
+        · intro h
+          split at h
+          · rename_i hc; exact ⟨d, s', rfl, hc, (ih s' caps).mp h⟩
+          · cases h
+        · rintro ⟨d', s'', e, hc, h⟩
+          simp at e; obtain ⟨e1, e2⟩ := e; subst e1 e2
+          simp only [hc, if_true]; exact (ih _ caps).mpr h
+    | ws =>
+      cases s with
+      | nil => simp [matchHere, LazyCaps]
+      | cons d s' =>
+        simp only [matchHere, LazyCaps]
+        constructor
+        · intro h
+          split at h
+          · rename_i hc; exact ⟨d, s', rfl, hc, (ih s' caps).mp h⟩
+          · cases h
+        · rintro ⟨d', s'', e, hc, h⟩
+          simp at e; obtain ⟨e1, e2⟩ := e; subst e1 e2
+          simp only [hc, if_true]; exact (ih _ caps).mpr h
+    | wild =>
+      simp only [matchHere, LazyCaps, wildK_some_iff]
+      constructor
+      · rintro ⟨g, t, rest, e, hn, hk, hc, hmin⟩
+        refine ⟨g, t, rest, e, by simpa using hc, hn, (ih t rest).mp hk, ?_⟩
+        intro g' t' e' hlt
+        exact (matchHere_none_iff ts t').mp (hmin g' t' e' hlt)
+      · rintro ⟨g, t, rest, e, hc, hn, hk, hmin⟩
+        refine ⟨g, t, rest, e, hn, (ih t rest).mpr hk, by simpa using hc, ?_⟩
+        intro g' t' e' hlt
+        exact (matchHere_none_iff ts t').mpr (hmin g' t' e' hlt)
+    | eol =>
+      simp only [matchHere, LazyCaps]
+      cases s with
+      | nil => simp [ih]
+      | cons d s' => simp
+
+/-- leftmost: `find` returns the captures of the first position at which the tokens match -/
+theorem find_some_iff (ts : List Tok) (l : List Char) (caps : Caps) :
+    find ts l = some caps ↔
+      ∃ pre t, l = pre ++ t ∧ matchHere ts t = some caps ∧
+        ∀ pre' t', l = pre' ++ t' → pre'.length < pre.length → matchHere ts t' = none := by
+  induction l with
+  | nil =>
+    simp only [find]
+    constructor
+    · intro h
+      refine ⟨[], [], rfl, h, ?_⟩
+      intro p t _ hlt; simp at hlt
+    · rintro ⟨pre, t, e, h, _⟩
+      have : pre = [] ∧ t = [] := by simpa using e.symm
+      rw [this.2] at h; exact h
+  | cons c s ih =>
+    simp only [find]
+    cases hm : matchHere ts (c :: s) with
+    | some c0 =>
+      simp only [Option.some.injEq]
+      constructor
+      · intro h
+        refine ⟨[], c :: s, rfl, by rw [hm, h], ?_⟩
+        intro p t _ hlt; simp at hlt
+      · rintro ⟨pre, t, e, h, hmin⟩
+        cases pre with
+        | nil => simp at e; subst e; rw [hm] at h; simpa using h
+        | cons a pre =>
+          have := hmin [] (c :: s) rfl (by simp)
+          rw [hm] at this; cases this
+    | none =>
+      simp only
+      rw [ih]
+      constructor
+      · rintro ⟨pre, t, e, h, hmin⟩
+        refine ⟨c :: pre, t, by simp [e], h, ?_⟩
+        intro p' t' e' hlt
+        cases p' with
+        | nil => simp at e'; subst e'; exact hm
+        | cons a p' =>
+          simp at e'
+          exact hmin p' t' e'.2 (by simpa using hlt)
+      · rintro ⟨pre, t, e, h, hmin⟩
+        cases pre with
+        | nil => simp at e; subst e; rw [hm] at h; cases h
+        | cons a pre =>
+          simp at e
+          refine ⟨pre, t, e.2, h, ?_⟩
+          intro p' t' e' hlt
+          exact hmin (c :: p') t' (by simp [e.1, e']) (by simpa using hlt)
+
+/-! ### tokens vs segments, with captures -/
+
+theorem LazyCaps_lit (wild : Bool) (c : Char) (hc : (c == '*' && wild) = false) (ts : List Tok)
+    (s : List Char) (caps : Caps) :
+    LazyCaps (tokOf wild c :: ts) s caps ↔
+      ∃ d s', s = d :: s' ∧ charMatches c d = true ∧ LazyCaps ts s' caps := by
+  by_cases h : (c == ' ') = true
+  · simp only [tokOf, h, if_true, LazyCaps, charMatches]
+  · have h' : (c == ' ') = false := by simpa using h
+    simp only [tokOf, h', hc, charMatches]
+    rfl
+
+theorem LazyGaps_cons_char (anch : Bool) (c : Char) (seg : List Char) (rest : List (List Char))
+    (s : List Char) (caps : Caps) :
+    LazyGaps anch ((c :: seg) :: rest) s caps ↔
+      ∃ d s', s = d :: s' ∧ charMatches c d = true ∧ LazyGaps anch (seg :: rest) s' caps := by
+  cases s with
+  | nil => cases rest <;> simp [LazyGaps, stripSeg]
+  | cons d s' =>
+    by_cases h : charMatches c d = true
+    · cases rest <;> simp only [LazyGaps, stripSeg, h, if_true] <;> constructor
+      · intro x; exact ⟨d, s', rfl, h, x⟩
+      · rintro ⟨d1, s1, e, _, x⟩; cases e; exact x
+      · intro x; exact ⟨d, s', rfl, h, x⟩
+      · rintro ⟨d1, s1, e, _, x⟩; cases e; exact x
+    · have h' : charMatches c d = false := by simpa using h
+      cases rest <;> simp [LazyGaps, stripSeg, h']
+
+theorem LazyCaps_tail (anch : Bool) (s : List Char) (caps : Caps) :
+    LazyCaps (if anch then [Tok.eol] else []) s caps ↔ caps = [] ∧ (anch = true → s = []) := by
+  cases anch <;> simp [LazyCaps, and_comm]
+
+theorem LazyCaps_wild (anch : Bool) (cs s : List Char) (caps : Caps) :
+    LazyCaps (cs.map (tokOf true) ++ (if anch then [Tok.eol] else [])) s caps ↔
+      LazyGaps anch (splitStar cs) s caps := by
+  induction cs generalizing s caps with
+  | nil =>
+    simp only [List.map_nil, List.nil_append, LazyCaps_tail, splitStar, LazyGaps, stripSeg,
+      Option.some.injEq]
+    constructor
+    · rintro ⟨h1, h2⟩; exact ⟨h1, s, rfl, h2⟩
+    · rintro ⟨h1, t, e, h2⟩; subst e; exact ⟨h1, h2⟩
+  | cons c cs ih =>
+    by_cases hc : c = '*'
+    · subst hc
+      have ht : tokOf true '*' = .wild := by decide
+      simp only [List.map_cons, List.cons_append, ht, LazyCaps, splitStar, beq_self_eq_true, if_true]
+      have hne := splitStar_ne_nil cs
+      cases hs : splitStar cs with
+      | nil => exact absurd hs hne
+      | cons r rest =>
+        simp only [LazyGaps, stripSeg, Option.some.injEq]
+        constructor
+        · rintro ⟨g, t, caps', e, hcaps, hn, hl, hmin⟩
+          refine ⟨s, rfl, g, t, caps', e, hcaps, hn, ?_, ?_⟩
+          · rw [← hs]; exact (ih t caps').mp hl
+          · intro g' t' e' hlt
+            rw [← hs, ← specHere_wild]
+            exact hmin g' t' e' hlt
+        · rintro ⟨u, eu, g, t, caps', e, hcaps, hn, hl, hmin⟩
+          subst eu
+          refine ⟨g, t, caps', e, hcaps, hn, ?_, ?_⟩
+          · rw [← hs] at hl; exact (ih t caps').mpr hl
+          · intro g' t' e' hlt
+            have := hmin g' t' e' hlt
+            rw [← hs, ← specHere_wild] at this
+            exact this
+    · have hc' : (c == '*') = false := by simpa using hc
+      have hcw : (c == '*' && true) = false := by simp [hc']
+      simp only [List.map_cons, List.cons_append]
+      rw [LazyCaps_lit true c hcw]
+      simp only [splitStar, hc']
+      have hne := splitStar_ne_nil cs
+      cases hs : splitStar cs with
+      | nil => exact absurd hs hne
+      | cons seg rest =>
+        simp only [Bool.false_eq_true, if_false]
+        rw [LazyGaps_cons_char]
+        constructor
+        · rintro ⟨d, s', e, hm, hl⟩
+          exact ⟨d, s', e, hm, by rw [← hs]; exact (ih s' caps).mp hl⟩
+        · rintro ⟨d, s', e, hm, hl⟩
+          exact ⟨d, s', e, hm, (ih s' caps).mpr (by rw [hs]; exact hl)⟩
+
+theorem LazyCaps_exact (cs s : List Char) (caps : Caps) :
+    LazyCaps (cs.map (tokOf false)) s caps ↔ LazyGaps false [cs] s caps := by
+  induction cs generalizing s with
+  | nil => simp [LazyCaps, LazyGaps, stripSeg]
+  | cons c cs ih =>
+    simp only [List.map_cons]
+    rw [LazyCaps_lit false c (by simp), LazyGaps_cons_char]
+    constructor
+    · rintro ⟨d, s', e, hm, hl⟩; exact ⟨d, s', e, hm, (ih s').mp hl⟩
+    · rintro ⟨d, s', e, hm, hl⟩; exact ⟨d, s', e, hm, (ih s').mpr hl⟩
+
+theorem LazyCaps_toToks (k : Keyword) (s : List Char) (caps : Caps) :
+    LazyCaps (toToks k) s caps ↔ LazyGaps (anchored k) (segmentsOf k) s caps := by
+  rw [toToks_eq]
+  by_cases hw : (k.ty == .wildcard) = true
+  · simp only [hw, segmentsOf, if_true]
+    exact LazyCaps_wild (anchored k) (patText k) s caps
+  · have hw' : (k.ty == .wildcard) = false := by simpa using hw
+    have ha : anchored k = false := by simp [anchored, hw']
+    simp only [hw', segmentsOf, ha, Bool.false_eq_true, if_false, List.append_nil]
+    exact LazyCaps_exact (patText k) s caps
+
+/-- **what `captures` returns**: the gaps of the leftmost position at which the pattern can be
+matched, each gap the shortest possible in the order of the wildcards -/
+theorem captures_some_iff (k : Keyword) (l : List Char) (caps : Caps) :
+    captures k l = some caps ↔
+      ∃ pre t, l = pre ++ t ∧ LazyGaps (anchored k) (segmentsOf k) t caps ∧
+        ∀ pre' t', l = pre' ++ t' → pre'.length < pre.length →
+          segsHere (anchored k) (segmentsOf k) t' = false := by
+  simp only [captures, find_some_iff]
+  constructor
+  · rintro ⟨pre, t, e, h, hmin⟩
+    refine ⟨pre, t, e, (LazyCaps_toToks k t caps).mp ((matchHere_some_iff _ _ _).mp h), ?_⟩
+    intro p' t' e' hlt
+    rw [← specHere_toToks]
+    exact (matchHere_none_iff _ _).mp (hmin p' t' e' hlt)
+  · rintro ⟨pre, t, e, h, hmin⟩
+    refine ⟨pre, t, e, (matchHere_some_iff _ _ _).mpr ((LazyCaps_toToks k t caps).mpr h), ?_⟩
+    intro p' t' e' hlt
+    have := hmin p' t' e' hlt
+    rw [← specHere_toToks] at this
+    exact (matchHere_none_iff _ _).mpr this
+
+/-! ### reconstruction -/
+
+theorem SegMatch_length (seg m : List Char) (h : SegMatch seg m) : m.length = seg.length := by
+  induction seg generalizing m with
+  | nil => cases m <;> simp_all [SegMatch]
+  | cons p ps ih =>
+    cases m with
+    | nil => simp [SegMatch] at h
+    | cons d m => simp only [SegMatch] at h; simp [ih m h.2]
+
+theorem charMatches_self (c : Char) : charMatches c c = true := by
+  simp only [charMatches, foldEq]
+  split
+  · rename_i h
+    have : c = ' ' := by simpa using h
+    subst this; decide
+  · simp
+
+theorem SegMatch_refl (g : List Char) : SegMatch g g := by
+  induction g with
+  | nil => trivial
+  | cons c g ih => exact ⟨charMatches_self c, ih⟩
+
+theorem SegMatch_append (a b m1 m2 : List Char) (h1 : SegMatch a m1) (h2 : SegMatch b m2) :
+    SegMatch (a ++ b) (m1 ++ m2) := by
+  induction a generalizing m1 with
+  | nil => cases m1 <;> simp_all [SegMatch]
+  | cons p ps ih =>
+    cases m1 with
+    | nil => simp [SegMatch] at h1
+    | cons d m => simp only [SegMatch] at h1; exact ⟨h1.1, ih m h1.2⟩
+
+theorem LazyGaps_recon (anch : Bool) (segs : List (List Char)) (hne : segs ≠ []) (s : List Char)
+    (caps : Caps) (h : LazyGaps anch segs s caps) :
+    ∃ m post, s = m ++ post ∧ Recon segs caps m ∧ (anch = true → post = []) := by
+  induction segs generalizing s caps with
+  | nil => exact absurd rfl hne
+  | cons seg rest ih =>
+    cases rest with
+    | nil =>
+      simp only [LazyGaps] at h
+      obtain ⟨hc, t, ht, ha⟩ := h
+      obtain ⟨m, e, hm⟩ := (stripSeg_iff seg s t).mp ht
+      exact ⟨m, t, e, ⟨hc, hm⟩, ha⟩
+    | cons r rest =>
+      simp only [LazyGaps] at h
+      obtain ⟨u, hu, g, t, caps', e, hc, _, hl, _⟩ := h
+      obtain ⟨m0, e0, hm0⟩ := (stripSeg_iff seg s u).mp hu
+      obtain ⟨m', post, e', hr, ha⟩ := ih (by simp) t caps' hl
+      refine ⟨m0 ++ (g ++ m'), post, ?_, ⟨m0, g, caps', m', hc, rfl, hm0, hr⟩, ha⟩
+      rw [e0, e, e']; simp
+
+theorem Recon_length (segs : List (List Char)) (caps : Caps) (m : List Char)
+    (h : Recon segs caps m) : m.length = matchedLen segs caps := by
+  induction segs generalizing caps m with
+  | nil => simp only [Recon] at h; simp [h.2, matchedLen]
+  | cons seg rest ih =>
+    cases rest with
+    | nil => simp only [Recon] at h; simp [matchedLen, SegMatch_length seg m h.2]
+    | cons r rest =>
+      simp only [Recon] at h
+      obtain ⟨m0, g, caps', m', hc, e, hm0, hr⟩ := h
+      subst hc e
+      simp [matchedLen, SegMatch_length seg m0 hm0, ih caps' m' hr]
+
+/-- substituting the captures for the `*`s gives the matched text up to `charMatches` -/
+theorem Recon_substitute (segs : List (List Char)) (caps : Caps) (m : List Char)
+    (h : Recon segs caps m) : SegMatch (substitute segs caps) m := by
+  induction segs generalizing caps m with
+  | nil => simp only [Recon] at h; simp [h.2, substitute, SegMatch]
+  | cons seg rest ih =>
+    cases rest with
+    | nil => simp only [Recon] at h; simpa [substitute] using h.2
+    | cons r rest =>
+      simp only [Recon] at h
+      obtain ⟨m0, g, caps', m', hc, e, hm0, hr⟩ := h
+      subst hc e
+      simp only [substitute]
+      exact SegMatch_append _ _ _ _ hm0 (SegMatch_append _ _ _ _ (SegMatch_refl g) (ih caps' m' hr))
+
+/-! ### number of captures -/
+
+theorem LazyGaps_length (anch : Bool) (segs : List (List Char)) (s : List Char) (caps : Caps)
+    (h : LazyGaps anch segs s caps) : caps.length = segs.length - 1 := by
+  induction segs generalizing s caps with
+  | nil => simp only [LazyGaps] at h; simp [h]
+  | cons seg rest ih =>
+    cases rest with
+    | nil => simp only [LazyGaps] at h; simp [h.1]
+    | cons r rest =>
+      simp only [LazyGaps] at h
+      obtain ⟨u, _, g, t, caps', _, hc, _, hl, _⟩ := h
+      subst hc
+      have := ih t caps' hl
+      simp at this ⊢
+      exact this
+
+theorem splitStar_length (cs : List Char) :
+    (splitStar cs).length = (cs.filter (· == '*')).length + 1 := by
+  induction cs with
+  | nil => simp [splitStar]
+  | cons c cs ih =>
+    simp only [splitStar, List.filter_cons]
+    by_cases hc : (c == '*') = true
+    · simp [hc, ih]
+    · have hc' : (c == '*') = false := by simpa using hc
+      simp only [hc', Bool.false_eq_true, if_false]
+      have hne := splitStar_ne_nil cs
+      cases hs : splitStar cs with
+      | nil => exact absurd hs hne
+      | cons seg rest => rw [hs] at ih; simpa using ih
+
+theorem unescapeQuotes_stars (cs : List Char) :
+    (unescapeQuotes cs).filter (· == '*') = cs.filter (· == '*') := by
+  induction cs using unescapeQuotes.induct with
+  | case1 r ih => simp only [unescapeQuotes, List.filter_cons]; simpa using ih
+  | case2 c r hne ih => simp only [unescapeQuotes, List.filter_cons, ih]
+  | case3 => rfl
+
 end Ag.Kw
